@@ -6,6 +6,7 @@ import T2N.Driver.CC
 import T2N.Model.Api
 import T2N.Model.Script
 import T2N.Driver.Gen
+import T2N.Driver.Laws
 
 namespace T2N.Exec
 open T2N.Proto
@@ -193,6 +194,9 @@ def exec (cc : CharClasses) (line : String) : String :=
     match getInterpreterFor (unescape code) with
     | some l => "some:" ++ lookupSig l.interp
     | none => "none"
+  | ["laws"] => CharLaws.showLaws cc
+  | ["lawsdbg"] => CharLaws.showLawsDebug cc
+  | ["lawsall", name] => CharLaws.showAllBad cc name
   | _ => "bad-request"
 
 end T2N.Exec
